@@ -3,8 +3,10 @@ import json, os
 from vlib import core
 
 THEOREMS = ['type_codes', 'reply_matches', 'no_double_delivery', 'only_to_owner', 'unsolicited_never_delivered',
-            'no_fabricated_reply', 'wire_id', 'distinct_callers_distinct_frames', 'no_panic', 'monitor_sound']
-MODULES = ['LLRP.Model.ClientLTS', 'LLRP.Model.ClientMon', 'LLRP.Proofs.ClientLTS', 'LLRP.Proofs.ClientLTS2', 'LLRP.Oracle.LTSim', 'LLRP.Oracle.C03']
+            'no_fabricated_reply', 'wire_id', 'distinct_callers_distinct_frames', 'no_panic', 'monitor_sound',
+            # about the go2seq translation of the source, for every environment
+            'src_unsolicited_never_matched', 'src_unsolicited_consts']
+MODULES = ['LLRP.Proofs.SeqDispatch', 'LLRP.Model.GoSeq', 'LLRP.Model.ClientLTS', 'LLRP.Model.ClientMon', 'LLRP.Proofs.ClientLTS', 'LLRP.Proofs.ClientLTS2', 'LLRP.Oracle.LTSim', 'LLRP.Oracle.C03']
 RULE = ('deterministic scripts over the real Client on net.Pipe (prologue: no negotiation / 1.0.1 reader / 1.1 reader; then random '
         'sequences of: issue a request, reply to a random outstanding request, unsolicited KeepAlive/ROAccessReport/ReaderEventNotification '
         'whose id COLLIDES with an outstanding request, cancel a caller, replies nobody waits for (cancelled / completed / unknown id); close) '
